@@ -971,7 +971,13 @@ class SyncObj(object):
 
             # Install snapshot
             elif serialized is not None:
-                if self.__serializer.setTransmissionData(serialized):
+                serializedIdx = message.get('serialized_idx', None)
+                if serializedIdx is not None and serializedIdx <= self.__raftLastApplied:
+                    # We are already past this snapshot (e.g. it was sent again after a stale
+                    # reject): installing it would move our state backwards and wipe our log.
+                    if serialized[2]:
+                        self.__sendNextNodeIdx(node, nextNodeIdx=self.__raftLastApplied + 1, success=True)
+                elif self.__serializer.setTransmissionData(serialized):
                     self.__loadDumpFile(clearJournal=True)
                     self.__sendNextNodeIdx(node, success=True)
                     verifiedLogIdx = self.__getCurrentLogIndex()
@@ -1257,6 +1263,9 @@ class SyncObj(object):
                         'commit_index': self.__raftCommitIndex,
                         'serialized': transmissionData,
                     }
+                    if len(self.__raftLog) > 1:
+                        # Log index the snapshot corresponds to
+                        message['serialized_idx'] = self.__raftLog[1][1]
                     self.__transport.send(node, message)
                     if node not in self.__connectedNodes:
                         break
